@@ -7,8 +7,8 @@ export CARGO_NET_OFFLINE=true
 cp "$W/_seed/demo.rs" "$W/tests/demo_seed.rs" 2>/dev/null
 suite=$(cargo test --offline --lib 2>&1 | grep "^test result" | head -1)
 with=$(cargo test --offline --test demo_seed 2>&1 | grep "^test result" | head -1)
-git stash -q -- src
+git diff -- src > /tmp/seedpatch_$P.diff; git checkout -- src
 without=$(cargo test --offline --test demo_seed 2>&1 | grep "^test result" | head -1)
-git stash pop -q
+git apply /tmp/seedpatch_$P.diff
 echo "{\"suite_with_change\": \"$suite\", \"demo_with_change\": \"$with\", \"demo_without_change\": \"$without\"}" > "$W/_seed/verify.json"
 cat "$W/_seed/verify.json"
